@@ -15,7 +15,7 @@ from ..pysym import (Engine, EngineLimit, SymInt, SymStr, SymByteArray, Coverage
 from ..shapes import Schema, codec_family, has_kind, is_fixed
 from ..values import Inst, instances, to_json
 
-STUBS = ["int", "float", "bytearray", "ord", "chr", "struct", "range", "max", "sorted"]
+STUBS = ["int", "float", "bytearray", "bytes", "ord", "chr", "struct", "range", "max", "min", "sorted", "sum"]
 WORK_BUDGET = 20000  # loop iterations per encode+decode of one instance (WorkBound -> reported, not silently cut)
 
 
